@@ -35,7 +35,7 @@ def run(prog, an, rep):
                'branches, next patch / minor numbers) on concrete sets of '
                'branches and tags is NOT decided here; that needs '
                'exhaustive execution')
-    rep.run_rules(prog, an, [compare_branches_table, dev_lt_table,
+    rep.run_rules(prog, an, [merge_paths_before_pruning, compare_branches_table, dev_lt_table,
                              compare_queues_table, sorted_by_comparators,
                              duplicate_rejected, hotfix_admission,
                              rejection_guards, target_version_cases,
@@ -211,17 +211,80 @@ def sorted_by_comparators(prog, an, rep):
                          (BR + '.QueueCollection._add_branch',
                           'self._queues', 'compare_queues')):
         f = need_func(an, q)
-        ok = False
-        for n in walk_local(f.node, include_root=False):
-            if isinstance(n, ast.Assign) and src(n.targets[0]) == var and \
-                    src(n.value).replace('\n', '').replace(' ', '') == (
+        c = an.cfg(f)
+        sorts = []
+        for n in c.nodes.values():
+            if n.kind == 'stmt' and isinstance(n.ast, ast.Assign) and \
+                    src(n.ast.targets[0]) == var and \
+                    canon(f, n.ast.value).replace(' ', '') == (
                         'OrderedDict(sorted(%s.items(),key=cmp_to_key(%s)))'
                         % (var, cmp_)):
-                ok = True
+                sorts += c.done_of(n)
         rep.evaluated()
-        rep.check(ok, R, '%s keeps %s sorted with %s' % (f.qname, var, cmp_),
-                  f.where(), '%s is no longer re-sorted with %s after an '
-                  'insertion' % (var, cmp_))
+        rep.check(bool(sorts), R, '%s keeps %s sorted with %s' % (
+            f.qname, var, cmp_), f.where(), '%s is no longer re-sorted with '
+            '%s after an insertion' % (var, cmp_))
+        # a new version line is inserted as <var>[key] = {...}: from there
+        # every way out of the function passes the re-sort ("for every
+        # order of discovery": no shortcut that skips it)
+        ins = [n for n in c.nodes.values() if n.kind == 'stmt' and
+               isinstance(n.ast, ast.Assign) and
+               isinstance(n.ast.targets[0], ast.Subscript) and
+               canon(f, n.ast.targets[0].value, paths_only=True) == var and
+               isinstance(n.ast.value, (ast.Dict, ast.Call))]
+        rep.floor('C09 insertions of a version line in ' + f.name,
+                  len(ins), 1)
+        for n in ins:
+            for d in c.done_of(n):
+                rep.evaluated()
+                pth = c.path(d, c.exit, removed=set(sorts), use_exc=False)
+                rep.check(pth is None, R, '%s: every insertion is followed '
+                          'by the re-sort' % f.qname, f.where(n),
+                          'after inserting a version line %s can return '
+                          'without re-sorting %s: the order then depends '
+                          'on the order of discovery' % (f.name, var),
+                          path=c.describe_path(pth))
+
+
+def merge_paths_before_pruning(prog, an, rep):
+    """finalize() removes the untargeted lines from the cascade; the merge
+    paths (memoised by get_merge_paths) must be computed on the complete
+    cascade, i.e. before the first removal, for every destination."""
+    R = 'C09.MPT.merge-paths'
+    f = need_func(an, BR + '.BranchCascade.finalize')
+    c = an.cfg(f)
+    gates = an.gate_nodes(f, Spec.method('get_merge_paths', r'^self$'),
+                          depth=1)
+    prunes = []
+    for n in c.nodes.values():
+        if n.kind != 'stmt':
+            continue
+        st = n.ast
+        if isinstance(st, ast.Delete) and any(
+                'self._cascade' in canon(f, t, paths_only=True)
+                for t in st.targets):
+            prunes.append(n)
+        elif isinstance(st, ast.Assign) and \
+                isinstance(st.targets[0], ast.Subscript) and \
+                is_const(st.value, None) and \
+                src(st.targets[0].slice) in ('DevelopmentBranch',
+                                             'StabilizationBranch',
+                                             'HotfixBranch'):
+            prunes.append(n)
+    rep.floor('C09 pruning statements in finalize', len(prunes), 3)
+    for n in prunes:
+        rep.evaluated()
+        ok, path = c.must_pass(gates, n.id)
+        rep.check(ok and bool(gates), R, f.qname + ': merge paths computed '
+                  'before `%s`' % src(st)[:40], f.where(n), 'a version line '
+                  'is removed from the cascade before the merge paths were '
+                  'computed: get_merge_paths() then answers from the pruned '
+                  'cascade', path=c.describe_path(path))
+    gm = need_func(an, BR + '.BranchCascade.get_merge_paths')
+    rep.check('self._merge_paths' in src(gm.node), R, gm.qname +
+              ': merge paths are memoised', gm.where(), 'get_merge_paths no '
+              'longer keeps its result: it is recomputed on the pruned '
+              'cascade')
 
 
 def duplicate_rejected(prog, an, rep):
